@@ -533,7 +533,7 @@ pub fn run(args: &Args) -> i32 {
     let mut rep = Report::new("C07", args.tier, args.seed, "model_checking");
     rep.exhaustive = true;
     rep.rule = format!(
-        "{n} concurrent requests on one connection; each request is healthy or suffers one fault of {{RESET(0x10c) after 0 / 1 / header-boundary / mid-DATA bytes, RESET(0) mid-frame, STOP_SENDING(0x10c), uppercase field name in the head or in the trailers, missing :method/:status, LF in a value, section over the limit, FIN before HEADERS (server role)}}, healthy heads padded to exactly the configured limit (on the second stream Huffman-coded with 26-bit symbols, so that its encoded form is more than twice the limit while its size by the RFC rule is the limit); every assignment with exactly one faulty request (thorough: at least one healthy and one faulty) also while a graceful shutdown is under way (the peer's GOAWAY, with an identifier that lets all of them continue, delivered after the requests were started and before the first fault); every assignment (including all healthy, and all faulty when homogeneous in the first two), for a real server and a real client against a scripted peer that plays the streams round-robin in three writes each. Every execution with <= {bound} deviations (scheduling among handler/request tasks, driver and script; an application pause between any two calls of the request API; chunk cuts and delayed delivery on every request stream), plus one-byte-per-read. Oracle: healthy requests deliver exactly their own position-coded bytes and complete, their responses are complete on the wire; no close(); drivers report no error; each faulty request reports the stream-level error the property names and never a connection error. states = distinct (transport cursors, per-request progress) fingerprints; non-trivial = executions with a deviation."
+        "{n} concurrent requests on one connection; each request is healthy or suffers one fault of {{RESET(0x10c) after 0 / 1 / header-boundary / mid-DATA bytes, RESET(0) mid-frame, STOP_SENDING(0x10c), uppercase field name in the head or in the trailers, missing :method/:status, LF in a value, section over the limit, FIN before HEADERS (server role)}}, healthy heads padded to exactly the configured limit (on the second stream Huffman-coded with 26-bit symbols, so that its encoded form is more than twice the limit while its size by the RFC rule is the limit); every assignment with exactly one faulty request (thorough: at least one healthy and one faulty) also while a graceful shutdown is under way (the peer's GOAWAY, with an identifier that lets all of them continue, delivered after the requests were started and before the first fault); every assignment (including all healthy, and all faulty when homogeneous in the first two), for a real server and a real client against a scripted peer that plays the streams round-robin in three writes each. Every execution with <= {bound} deviations (scheduling among handler/request tasks, driver and script; an application pause between any two calls of the request API; chunk cuts and delayed delivery on every request stream), plus one-byte-per-read, plus (server role) the sequential server loop that handles each request inside the accept loop, whole and one byte per read. Oracle: healthy requests deliver exactly their own position-coded bytes and complete, their responses are complete on the wire; no close(); drivers report no error; each faulty request reports the stream-level error the property names and never a connection error. states = distinct (transport cursors, per-request progress) fingerprints; non-trivial = executions with a deviation."
     );
     rep.assumptions = vec!["a STOP_SENDING that arrives after the sending half completed is not reported (ok accepted)".into(), "client role: a response stream FIN-ed before HEADERS is not in the fault set (DESIGN.md 7)".into()];
     rep.bound_note = format!("{n} requests, deviation bound {bound}");
@@ -585,7 +585,7 @@ pub fn run(args: &Args) -> i32 {
         }
     }
     let seed = args.seed;
-    let deadline = std::time::Instant::now() + std::time::Duration::from_secs(if thorough { 1500 } else { 35 });
+    let deadline = std::time::Instant::now() + std::time::Duration::from_secs(if thorough { 1500 } else { 55 });
     let accs = explore::par::run(&cases, Acc::new, |_, case, acc| {
         let caps = Caps { deadline: Some(deadline), max_executions: if thorough { 4_000_000 } else { 400_000 }, ..Caps::default() };
         let mut viol = explore::report::ViolSet::new();
@@ -628,6 +628,19 @@ pub fn run(args: &Args) -> i32 {
         for (sig, msg) in judge(case, &o) {
             acc.violation(format!("{sig}:one-byte-reads"), msg, (1, 0), || json!({"me": if case.me == Endpoint::Server {"server"} else {"client"}, "plans": case.plans.iter().map(|p| plan_json(*p)).collect::<Vec<_>>(), "goaway": case.goaway, "choices": [], "seed": seed, "mode": "read1"}));
         }
+        // the sequential server loop: every request is handled inside the accept loop, so the later ones (and their
+        // faults) wait in the transport while an earlier one is served
+        if case.me == Endpoint::Server {
+            for (mode, pol) in [("inline", Policy::Whole), ("inline-read1", Policy::PerByte)] {
+                set_inline_handlers(true);
+                let o = execute(case, seed, pol);
+                set_inline_handlers(false);
+                acc.evaluations += 1;
+                for (sig, msg) in judge(case, &o) {
+                    acc.violation(format!("{sig}:{mode}"), msg, (1, 0), || json!({"me": "server", "plans": case.plans.iter().map(|p| plan_json(*p)).collect::<Vec<_>>(), "goaway": case.goaway, "choices": [], "seed": seed, "mode": mode}));
+                }
+            }
+        }
     });
     let mut total = Acc::new();
     for a in accs {
@@ -648,6 +661,11 @@ pub fn replay(r: &Value) -> i32 {
     let once = || {
         if r["mode"] == "read1" {
             (execute(&case, seed, Policy::PerByte), None)
+        } else if r["mode"] == "inline" || r["mode"] == "inline-read1" {
+            set_inline_handlers(true);
+            let o = execute(&case, seed, if r["mode"] == "inline" { Policy::Whole } else { Policy::PerByte });
+            set_inline_handlers(false);
+            (o, None)
         } else {
             let (o, _, d) = dfs::replay(&choices, || execute(&case, seed, Policy::Choose));
             (o, d)
